@@ -1,7 +1,10 @@
 use crate::core::Prop;
 
+pub mod c10;
+pub mod c11;
 pub mod c23;
+pub mod c29;
 
 pub fn all() -> Vec<Prop> {
-    vec![c23::PROP]
+    vec![c10::PROP, c11::PROP, c23::PROP, c29::PROP]
 }
